@@ -136,6 +136,9 @@ def _case_select_form(f, reg, nx, evs):
 
 
 def run(R):
+    # a row is evaluated on that row alone: the per-line entries keep no memo of earlier lines
+    from . import rules_c06 as _c06
+    _c06.line_memo_rule(R, "C03.memo")
     P = R.prog
     R.rule("C03.sites", "no unchecked arithmetic, narrowing cast or panicking call on evaluated data (site inventory rooted at evaluate)")
     rules_sites.ROOTS["EVAL"] = [EVAL]
